@@ -70,6 +70,35 @@ pub fn number_words(l: L) -> Vec<String> {
     out
 }
 
+/// Words from which very large numbers are built: nine, tens, hundred, one, the scale words of the class
+/// alphabet and one representative per (value, cardinal/ordinal) among the vocabulary's scale words.
+pub fn big_number_words(l: L, lang: &text2num::Language) -> Vec<String> {
+    use crate::infra::guard;
+    let c = cls(l);
+    let mut big: Vec<String> = vec![c.unit2.clone(), c.tens.clone(), c.hundred.clone(), c.one.clone(), c.thousand.clone(), c.million.clone(), c.milliard.clone()];
+    if l == L::It {
+        big.extend(["mila", "milioni", "bilione", "bilioni"].iter().map(|x| x.to_string()));
+    }
+    if l == L::Pt {
+        big.extend(["milionésimo", "bilionésimo", "bilionésima"].iter().map(|x| x.to_string()));
+    }
+    // one representative per (value, cardinal/ordinal) among the vocabulary's scale words
+    let mut seen_keys: Vec<(String, bool)> = vec![];
+    for w in number_words(l) {
+        if let Ok(Ok(d)) = guard(|| text2num::text2digits(&w, lang)) {
+            let digits: String = d.chars().take_while(|c| c.is_ascii_digit()).collect();
+            let key = (digits.clone(), d.len() > digits.len());
+            if digits.len() >= 4 && digits.starts_with('1') && digits[1..].bytes().all(|b| b == b'0') && !seen_keys.contains(&key) {
+                seen_keys.push(key);
+                if !big.contains(&w) {
+                    big.push(w);
+                }
+            }
+        }
+    }
+    big
+}
+
 /// Ambiguity triggers and the function words that sit next to numbers (articles, "half", "dozen", "pair").
 pub fn function_words(l: L) -> &'static [&'static str] {
     match l {
